@@ -121,8 +121,11 @@ def r13_3(ctx):
                 ctx.check(bool(st), "R13.3", F, "the new node's next link is initialised before the CAS that publishes the node", ev[cas[0]].node, detail=R, sig="publish-after-init")
                 if p.outcome == "return":
                     ctx.check((p.ret == C(1)) == (_won(p, ev[cas[0]]) is True), "R13.3", F, "link_node reports exactly the outcome of its publishing CAS", None, sig="link-result")
-    if n < 10:
-        ctx.broken("MichaelList link/unlink/retire sites not found (%d)" % n)
+    from . import skiplist
+    mk = skiplist.rule_mark_cas_from_unmarked(ctx, "R13.3", [f for f in ctx.db.funcs.values() if re.match(r"cds::intrusive::MichaelList::(unlink_node|erase_at|extract_at|unlink_at)$", f.q)
+                                                        and f.gc_kind() != "nogc"], R)
+    if n < 10 or mk < 1:
+        ctx.broken("MichaelList link/unlink/retire sites not found (%d, %d mark CAS sites)" % (n, mk))
 r13_3.rule_id = "R13.3"
 
 
